@@ -79,7 +79,8 @@ def validate_trace(ctx, events, label):
             ctx.violation("C01.trace.%s.%s" % (ev["op"], r["why"]), "%s/%s" % (ev["fmt"], ev["via"]),
                           "%s %s via %s, %d workers, %d-byte file (2^20-th byte in class %s): rejected by ChunkerTrace (%s); %s"
                           % (ev["op"], ev["fmt"], ev["via"], ev["workers"], ev["size"], ev["cls"], r["why"], ev["why"][:300]), ev)
-        os.remove(tr)
+        if not os.environ.get("VERIF_KEEP"):
+            os.remove(tr)
 
 
 def main(ctx):
@@ -172,7 +173,7 @@ def main(ctx):
             events.append(json.loads(l))
         except ValueError:      # torn last line of a crashed run
             pass
-    if os.path.exists(trace):
+    if os.path.exists(trace) and not os.environ.get("VERIF_KEEP"):
         os.remove(trace)
     if crashed and not events:
         return ctx.finish()
